@@ -60,21 +60,9 @@ type Big struct {
 var bases = []int{2, 8, 10, 16, 36}
 var floatFormats = []string{"short-float", "single-float", "double-float", "long-float"}
 
-// dirtyKinds is the avoid set: constructs the pinned tree already misreads.
-// Each is produced in a minority of cases only, one kind per case.
-var dirtyKinds = []string{
-	"float-leading-point", // .5
-	"integer-point-nondecimal-base",
-}
-
-// avoidedKind tells that a token kind belongs to the avoid set.
-func avoidedKind(kind string) bool {
-	switch kind {
-	case "float-leading-point", "integer-point-nondecimal-base":
-		return true
-	}
-	return false
-}
+// avoidedKind tells that a token kind belongs to the avoid set. The set is empty: every
+// construct the tree once misread has been repaired and is judged in the clean stream.
+func avoidedKind(kind string) bool { return false }
 
 type builder struct {
 	r     *rand.Rand
@@ -250,8 +238,9 @@ func (b *builder) intLen() int {
 
 func (b *builder) integerText() string {
 	s := b.sign(20) + b.digits(b.base, b.intLen())
-	if b.base == 10 && b.r.IntN(10) == 0 {
-		s += "."
+	if b.r.IntN(10) == 0 {
+		// a trailing point: decimal whatever *read-base* is
+		s = b.sign(20) + b.decDigits(b.intLen()) + "."
 	}
 	return s
 }
@@ -293,6 +282,8 @@ func (b *builder) floatText() string {
 		} else {
 			mant = ip + "." // 12.e3
 		}
+	case 2:
+		mant = "." + fp // .5
 	default:
 		mant = ip + "." + fp
 	}
